@@ -584,3 +584,17 @@ impl AngleEq for SymF {
         decide(self.normalize_unsigned_angle().cmp(o.normalize_unsigned_angle(), Node::Eq))
     }
 }
+
+
+// palette's HSLuv gamut boundary (luv_bounds.rs) leaves the generic number type and works in f64 (`T: Into<f64>`): a symbolic
+// number can only follow it when it is a constant (obligations that fix lightness and hue as a configuration)
+impl From<SymF> for f64 {
+    fn from(x: SymF) -> f64 {
+        x.konst().expect("Into<f64> on a symbolic (non-constant) number: luv_bounds needs concrete lightness and hue")
+    }
+}
+impl From<SymM> for f64 {
+    fn from(x: SymM) -> f64 {
+        x.konst().expect("Into<f64> on a symbolic (non-constant) number: luv_bounds needs concrete lightness and hue")
+    }
+}
